@@ -409,13 +409,40 @@ def gen_c08(rng, fs, i, cfg):
         fid, path = rng.choice(ctx["srcs"])
         node = fs.lookup(fid, path) if fid in fs.files else None
         if node is not None and isinstance(node.coll, Coll):
-            lay2 = perturb_layout(rng, ctx["layout"]) if rng.random() < 0.7 else ctx["layout"]
+            rr = rng.random()
+            if rr < 0.45:
+                lay2 = perturb_layout(rng, ctx["layout"])
+            elif rr < 0.75:
+                # a wholly different table (other chromosome count, bin counts, widths)
+                lay2 = gen.gen_layout(rng, cfg.get("maxchroms", 4), cfg.get("maxbins", 9),
+                                      rng.choice(["fixed", "variable", "fixed-exact"]))
+            else:
+                lay2 = ctx["layout"]
             op = _same_layout_create(rng, cfg, lay2, ctx["symmetric"], ctx["colspec"], cfg.get("maxpx", 60))
             for ch in op["chunks"]:
                 for col, dt in op["dtypes"].items():
                     if "int" in dt:
                         ch[col] = [min(v, 1000) for v in ch[col]]
             op.update(file=fid, path=path, mode="a")
+            if ctx.get("last_coarsen", {}).get((fid, path)):
+                # ... and the next operation repeats an earlier coarsening of that very URI (same
+                # spelling, same factor) with a pool: anything remembered per (URI, factor) in the
+                # parent or inherited by forked workers is stale now
+                ctx["redo"] = (fid, path)
+            return op
+    if ctx.get("redo"):
+        fid, path = ctx.pop("redo")
+        node = fs.lookup(fid, path) if fid in fs.files else None
+        if node is not None and isinstance(node.coll, Coll):
+            import copy as _copy
+            op = _copy.deepcopy(ctx["last_coarsen"][(fid, path)])
+            op["path"] = "/r%d" % i
+            op["nproc"] = rng.choice([2, 3])
+            op["cli"] = False
+            op["mode"] = "a"
+            op["fault"] = None
+            op["columns"] = None
+            op["agg"] = None
             return op
     if r < 0.15 and len(have) >= 2:
         # merge/coarsen interleaving
@@ -434,6 +461,7 @@ def gen_c08(rng, fs, i, cfg):
         op["nproc"] = 2
         op["factor"] = 2
         op["cli"] = False
+    ctx.setdefault("last_coarsen", {})[(op["src"]["file"], op["src"]["path"])] = op
     return op
 
 
@@ -955,6 +983,11 @@ def gen_c11(rng, fs, i, cfg):
         ctx["made"] = True
         lay = gen.gen_layout(rng, cfg.get("maxchroms", 3), cfg.get("maxbins", 7),
                              rng.choice(["fixed", "fixed", "variable", "fixed-exact", "mixed-one"]))
+        if rng.random() < 0.25:
+            # Ensembl/NCBI style names that look like numbers ("1", "2", "03"): text files naming them
+            # (a blacklist BED) must still be read as names
+            pool_ = rng.choice([["1", "2", "3", "4", "5"], ["10", "2", "1", "22", "3"], ["01", "02", "03", "04", "05"]])
+            lay = dict(lay, names=pool_[:len(lay["names"])])
         n = gen.nbins_of(lay)
         dens = rng.choice(["dense", "dense", "sparse", "sparse", "row"])
         support = gen.gen_support(rng, n, True, dens, cfg.get("maxpx", 90))
@@ -1001,6 +1034,8 @@ def gen_c11(rng, fs, i, cfg):
             c["repeat"] = rng.random() < 0.4
         if m == "cli" and c["chunksize"] < 3 and not small:
             c["chunksize"] = 10
+        if m == "cli":
+            c["bed_header"] = rng.random() < 0.5
         configs.append(c)
     if rng.random() < 0.3:
         configs.append({"map": "builtin", "chunksize": None, "repeat": True})
